@@ -19,8 +19,8 @@ CHECKS = {
          "Held for every emission observed over the SQL-representable domain x 3 variants x 3 styles x force_pk_id, with declared / inferred / ambiguous primary keys and foreign keys.", NOTE, "3 C05"),
  "C06": ("runtime contract on the real json_schema emitter with reference validators (jsonschema Draft 2020-12 meta-schema, instance validation of defaults, re.fullmatch on Literal patterns) and round trip through the real parser",
          "Every emitted schema is validated against the 2020-12 meta-schema, required<->Optional, defaults against their own property schema, Literal patterns against members and near-miss probes, and parsed back.", NOTE, "3 C06"),
- "C09": ("runtime contracts on the real cst_parse / cst_scanner (concatenation identity, line tiling); exhaustive token-sequence enumeration + repository files + seeded mutants",
-         "Exhaustive over all sequences of length <= 4 (quick) / <= 5 (thorough, 5.4 M strings) of a 22-token lexical alphabet, every repository .py file within the size bound, and seeded mutations; each checked for byte-exact reconstruction and line tiling.", NOTE, "3 C09"),
+ "C09": ("runtime contracts on the real cst_parse / cst_scanner (concatenation identity, line tiling); exhaustive token-sequence enumeration (two alphabets) + repository files + seeded mutants + string-expression statements",
+         "Exhaustive over all sequences of length <= 4 (quick) / <= 5 (thorough, 5.4 M strings) of a 22-token lexical alphabet, a deeper sweep (length 5..6 / ..7) over the 8 tokens that open, close and join string literals, every repository .py file within the size bound, seeded mutations and seeded string-expression statements; each checked for byte-exact reconstruction and line tiling.", NOTE, "3 C09"),
  "C14": ("runtime contracts (shape invariant) on all ten real parser entry points; emitter-produced sources, grammar-generated docstrings, generated rich signatures, random token text",
          "The documented IR shape is asserted on every parser return observed (hundreds of thousands in the thorough tier); function.parse additionally checked for 'every signature parameter exactly once'.", NOTE, "3 C14"),
  "C07": ("process-boundary monitor of the real doctrans (API and CLI): file bytes before/after, erased-AST equality, comment-token sequence, alignment-free line identity, file-system snapshot diff, source-free failpoint (sys.monitoring) for the fails-midway clause",
@@ -39,7 +39,7 @@ CHECKS = {
          "Held on every split and every (source style, target style, route) conversion observed over grammar-generated docstrings at indentation 0..2 with footers.", NOTE, "3 C15"),
  "C16": ("observed return values of the real OpenAPI emitter and of gen_routes -> routes file -> openapi_bulk, checked by a reference $ref resolver, path-parameter check, operation-set check and the model's own json-schema",
          "Held on every document observed (1..3 models, CRUD subsets, prefixes, app names, shared / separate routes files).", NOTE, "3 C16"),
- "C17": ("audit-hook monitor (sys.addaudithook) in fresh subprocesses, armed only during each real cdd call on adversarial inputs; opcode inspection of exec'd code objects, canary module, sentinel files; self-test with --input-eval",
+ "C17": ("audit-hook monitor (sys.addaudithook) in fresh subprocesses, armed only during each real cdd call on adversarial inputs; opcode inspection of exec'd code objects, canary module, canary callables planted in builtins, sys.modules comparison, sentinel files; self-test with --input-eval",
          "No violating audit event and no sentinel for any monitored call over adversarial docstrings, interfaces, modules and route docstrings (python-tagged YAML); the monitor is proven live each run by the --input-eval self-test and by counting the allowed type-name probes it saw.", NOTE, "3 C17"),
  "C19": ("process-boundary monitor of the real `python -m cdd gen` under file-system snapshots: compile, symbol/__all__ oracle, re-parse of each generated symbol, free-name import resolution, non-clobbering",
          "Held on every invocation observed over the parse-kind x emit-kind matrix x templates x import inference x prepend x existing output x input mapping as file or directory of modules; configurations this tree rejects are enumerated so that any other failure is a deviation.", NOTE, "3 C19"),
